@@ -410,7 +410,7 @@ func c18HistRun(c *core.Ctx) {
 			}
 		}
 	}
-	c.Max("history_colliders", colliders)
+	c.Info("history_colliders", colliders)
 }
 
 func c18HistReplay(c *core.Ctx, payload json.RawMessage) bool {
